@@ -38,7 +38,7 @@ THEOREMS = ['unique_names_fresh', 'unique_names_never_reused', 'unicast_exact', 
             'bus_rule_matches_iff_c12_spec', 'full_rule_matches_iff_spec', 'held_rules_were_registered',
             'broadcast_exact_full', 'broadcast_exact_c12_spec', 'addmatch_text_roundtrip',
             'client_text_rule_matches_spec', 'client_text_events_are_wf', 'broadcast_order_preserved',
-            'broadcast_first_copies_in_order', 'simple_rules_embed', 'arg0namespace_is_ignored',
+            'broadcast_first_copies_in_order', 'simple_rules_embed', 'simple_histories_embed', 'arg0namespace_is_ignored',
             'sender_constraint_is_ignored_full']
 TRUSTED_BASE = [
     'a message is its observable header (type, serial, whole flags byte, the nine known header fields, a token for fields '
